@@ -2,6 +2,7 @@ import InfluxQL.Model.ParserStmt
 import InfluxQL.Model.PrintStmt
 import InfluxQL.Lemmas.Digits
 import InfluxQL.Lemmas.ParserTok
+import InfluxQL.Lemmas.StmtPieces
 import InfluxQL.Lemmas.IntLit
 import InfluxQL.Lemmas.RegexRoundTrip
 import InfluxQL.Lemmas.NumberRoundTrip
@@ -233,6 +234,268 @@ example : ∃ s', (runHandler 10 .parseGrantsForUserStatement).run
     (by simp [singleNameHandlers]) (PState.init " cpu;".toList [] []) "cpu".toList ';' [eofRune]
     rfl (by decide) (by decide) (by decide) (by decide) (by decide) (by decide)
   exact ⟨s', h⟩
+
+/-! ## statement families at text level
+
+From here on the theorems have one shape. The parser state `s` has nothing pushed back and its
+rune reader stands before the text the printer writes *after the dispatch keywords* of the
+statement, followed by an arbitrary continuation `k` (`s.Before (… ++ k)`, runes as the reader
+delivers them; `k` ends with the NUL sentinel of the input). The handler the dispatch selects
+returns exactly the printed statement and leaves the parser before `k`.
+
+Hypotheses that recur:
+* `Expressible name` — no NUL, no CR: true of every name and string the parser can produce
+  (the scanner ends a literal at NUL and the reader folds CR);
+* `IdentEnd name k`, `WordEnd k`, `NumEnd k`, `DurEnd k` — the continuation does not *continue*
+  the last printed token (a name printed bare, a keyword, digits, a duration); the end of the
+  input and `;` always qualify. They restrict the context, not the statement.
+The printed text is given in pieces (`Token.str` is the upper-case spelling of a keyword);
+the `…_print` theorems state that this is what `String()` writes. -/
+
+/-! ### statements without arguments -/
+
+/-- The handlers that read nothing. -/
+def zeroArgHandlers : List (Handler × Statement) :=
+  [(.parseShowContinuousQueriesStatement, .showContinuousQueries), (.parseShowDatabasesStatement, .showDatabases),
+   (.parseShowQueriesStatement, .showQueries), (.parseShowShardGroupsStatement, .showShardGroups),
+   (.parseShowShardsStatement, .showShards), (.parseShowSubscriptionsStatement, .showSubscriptions),
+   (.parseShowUsersStatement, .showUsers)]
+
+/-- These statements print as their keywords only. -/
+theorem zeroArg_print :
+    zeroArgHandlers.map (fun p => p.2.print) =
+      [tx "SHOW CONTINUOUS QUERIES", tx "SHOW DATABASES", tx "SHOW QUERIES", tx "SHOW SHARD GROUPS", tx "SHOW SHARDS",
+       tx "SHOW SUBSCRIPTIONS", tx "SHOW USERS"] := rfl
+
+/-- **Print → parse, statements without arguments**: the handler returns the statement and reads
+nothing, in every state. -/
+theorem zeroArg_print_parse (fuel : Nat) (h : Handler) (st : Statement) (hh : (h, st) ∈ zeroArgHandlers)
+    (s : PState) : (runHandler fuel h).run s = .ok (st, s) := by
+  simp only [zeroArgHandlers, List.mem_cons, Prod.mk.injEq, List.not_mem_nil, or_false] at hh
+  rcases hh with ⟨rfl, rfl⟩ | ⟨rfl, rfl⟩ | ⟨rfl, rfl⟩ | ⟨rfl, rfl⟩ | ⟨rfl, rfl⟩ | ⟨rfl, rfl⟩ | ⟨rfl, rfl⟩ <;> rfl
+
+/-! ### `<name> ON <db>`: DROP RETENTION POLICY, DROP CONTINUOUS QUERY -/
+
+theorem tx_on : tx " ON " = ' ' :: (Token.ON.str ++ [' ']) := by decide +kernel
+
+/-- What is printed after the keywords. -/
+def nameOnDbText (name db : Str) : Str := ' ' :: (qi name ++ ' ' :: (Token.ON.str ++ ' ' :: qi db))
+
+theorem nameOnDb_print (name db : Str) :
+    (Statement.dropRetentionPolicy name db).print = tx "DROP RETENTION POLICY" ++ nameOnDbText name db ∧
+    (Statement.dropContinuousQuery name db).print = tx "DROP CONTINUOUS QUERY" ++ nameOnDbText name db := by
+  have e1 : tx "DROP RETENTION POLICY " = tx "DROP RETENTION POLICY" ++ [' '] := by decide +kernel
+  have e2 : tx "DROP CONTINUOUS QUERY " = tx "DROP CONTINUOUS QUERY" ++ [' '] := by decide +kernel
+  have p1 : (Statement.dropRetentionPolicy name db).print =
+      tx "DROP RETENTION POLICY " ++ qi name ++ tx " ON " ++ qi db := rfl
+  have p2 : (Statement.dropContinuousQuery name db).print =
+      tx "DROP CONTINUOUS QUERY " ++ qi name ++ tx " ON " ++ qi db := rfl
+  rw [p1, p2, e1, e2, tx_on]
+  simp only [nameOnDbText, List.append_assoc, List.cons_append, List.nil_append, and_self]
+
+/-- `parseNameOnDb` on the printed form. -/
+theorem parseNameOnDb_print (s : PState) (name db k : Str) (hex1 : Expressible name) (hex2 : Expressible db)
+    (hk : IdentEnd db k) (hs : s.Before (nameOnDbText name db ++ k)) :
+    ∃ s', parseNameOnDb.run s = .ok ((name, db), s') ∧ s'.Before k := by
+  have e : nameOnDbText name db ++ k = ' ' :: (qi name ++ ' ' :: (Token.ON.str ++ ' ' :: (qi db ++ k))) := by
+    simp only [nameOnDbText, List.append_assoc, List.cons_append]
+  rw [e] at hs
+  obtain ⟨s1, h1, b1⟩ := parseIdent_piece s [' '] (qi name) _ name Gap.blank hs
+    (scansAs_ident name _ hex1 (.of_wordEnd (WordEnd.blank _)))
+  obtain ⟨s2, h2, b2⟩ := expectTok_piece s1 [' '] Token.ON.str _ .ON [] ["ON"] Gap.blank b1
+    (scansAs_kw .ON _ (by decide +kernel) (WordEnd.blank _))
+  obtain ⟨s3, h3, b3⟩ := parseIdent_piece s2 [' '] (qi db) k db Gap.blank b2 (scansAs_ident db k hex2 hk)
+  refine ⟨s3, ?_, b3⟩
+  unfold parseNameOnDb
+  rw [P.run_bind _ _ s name s1 h1, P.run_bind _ _ s1 () s2 h2, P.run_bind _ _ s2 db s3 h3]
+  rfl
+
+/-- The two handlers of this family. -/
+def nameOnDbHandlers : List (Handler × (Str → Str → Statement)) :=
+  [(.parseDropRetentionPolicyStatement, .dropRetentionPolicy), (.parseDropContinuousQueryStatement, .dropContinuousQuery)]
+
+/-- **Print → parse, DROP RETENTION POLICY / DROP CONTINUOUS QUERY.** -/
+theorem nameOnDb_print_parse (fuel : Nat) (h : Handler) (C : Str → Str → Statement) (hh : (h, C) ∈ nameOnDbHandlers)
+    (s : PState) (name db k : Str) (hex1 : Expressible name) (hex2 : Expressible db)
+    (hk : IdentEnd db k) (hs : s.Before (nameOnDbText name db ++ k)) :
+    ∃ s', (runHandler fuel h).run s = .ok (C name db, s') ∧ s'.Before k := by
+  obtain ⟨s', hrun, hb⟩ := parseNameOnDb_print s name db k hex1 hex2 hk hs
+  refine ⟨s', ?_, hb⟩
+  simp only [nameOnDbHandlers, List.mem_cons, Prod.mk.injEq, List.not_mem_nil, or_false] at hh
+  rcases hh with ⟨rfl, rfl⟩ | ⟨rfl, rfl⟩ <;>
+    (simp only [runHandler]; rw [P.run_bind _ _ s (name, db) s' hrun]; rfl)
+
+/-- Non-vacuity: `DROP RETENTION POLICY "1h.cpu" ON mydb` at the end of the input. -/
+example : ∃ s', (runHandler 10 .parseDropRetentionPolicyStatement).run
+      (PState.init (nameOnDbText "1h.cpu".toList "mydb".toList) [] []) =
+        .ok (.dropRetentionPolicy "1h.cpu".toList "mydb".toList, s') := by
+  obtain ⟨s', h, _⟩ := nameOnDb_print_parse 10 .parseDropRetentionPolicyStatement .dropRetentionPolicy
+    (by simp [nameOnDbHandlers]) (PState.init (nameOnDbText "1h.cpu".toList "mydb".toList) [] []) "1h.cpu".toList
+    "mydb".toList [eofRune] (by decide) (by decide) (.of_wordEnd .eof)
+    (by
+      have := PState.init_before (nameOnDbText "1h.cpu".toList "mydb".toList) [] []
+      rwa [show foldCR (nameOnDbText "1h.cpu".toList "mydb".toList) = nameOnDbText "1h.cpu".toList "mydb".toList from by
+        decide] at this)
+  exact ⟨s', h⟩
+
+/-! ### the optional `ON <db>` clause: SHOW RETENTION POLICIES, KILL QUERY -/
+
+/-- ` ON <db>` when the name is not empty (the printers' test), else nothing. -/
+def onText (db : Str) : Str := if db ≠ [] then ' ' :: (Token.ON.str ++ ' ' :: qi db) else []
+
+theorem clauseOn_eq (db : Str) : clauseOn db = onText db := by
+  unfold clauseOn onText
+  split
+  · rw [tx_on]; simp only [List.append_assoc, List.cons_append, List.nil_append]
+  · rfl
+
+/-- The optional `ON` clause on its printed form: present it is consumed; absent (the empty name
+prints nothing) one token is looked at and pushed back. -/
+theorem parseOnDb_print (s : PState) (db k : Str) (hex : Expressible db) (hk : IdentEnd db k)
+    (hs : s.Before (onText db ++ k)) :
+    ∃ sK, sK.Before k ∧ Returns parseOnDb s db sK (db == []) [.ON] := by
+  unfold onText at hs
+  by_cases hdb : db = []
+  · subst hdb
+    refine ⟨s, hs, ?_⟩
+    unfold Returns
+    rw [if_pos (by simp)]
+    intro lx s' hp hne
+    unfold parseOnDb
+    rw [P.run_bind _ _ s false s' (optTok_absent .ON hp (by simpa using hne))]
+    rfl
+  · rw [if_pos hdb] at hs
+    simp only [List.append_assoc, List.cons_append] at hs
+    obtain ⟨s1, h1, b1⟩ := optTok_piece s [' '] Token.ON.str _ .ON [] Gap.blank hs
+      (scansAs_kw .ON _ (by decide +kernel) (WordEnd.blank _))
+    obtain ⟨s2, h2, b2⟩ := parseIdent_piece s1 [' '] (qi db) k db Gap.blank b1 (scansAs_ident db k hex hk)
+    refine ⟨s2, b2, ?_⟩
+    unfold Returns
+    rw [if_neg (by simpa using hdb)]
+    unfold parseOnDb
+    rw [P.run_bind _ _ s true s1 h1]
+    exact h2
+
+theorem showRetentionPolicies_print (db : Str) :
+    (Statement.showRetentionPolicies db).print = tx "SHOW RETENTION POLICIES" ++ onText db := by
+  rw [← clauseOn_eq]; rfl
+
+/-- **Print → parse, SHOW RETENTION POLICIES [ON db]** (the empty name is printed as no clause and
+read back as the empty name). -/
+theorem showRetentionPolicies_print_parse (fuel : Nat) (s : PState) (db k : Str) (hex : Expressible db)
+    (hk : IdentEnd db k) (hs : s.Before (onText db ++ k)) :
+    ∃ sK, sK.Before k ∧
+      Returns (runHandler fuel .parseShowRetentionPoliciesStatement) s (.showRetentionPolicies db) sK (db == []) [.ON] := by
+  obtain ⟨sK, hb, hr⟩ := parseOnDb_print s db k hex hk hs
+  refine ⟨sK, hb, ?_⟩
+  unfold Returns at hr ⊢
+  simp only [runHandler, parseShowRetentionPolicies]
+  split
+  · next hp =>
+    rw [if_pos hp] at hr
+    intro lx s' h1 h2
+    rw [P.run_bind _ _ s db s' (hr lx s' h1 h2)]; rfl
+  · next hp =>
+    rw [if_neg hp] at hr
+    rw [P.run_bind _ _ s db sK hr]; rfl
+
+/-- What KILL QUERY prints after its keywords. -/
+def killQueryText (qid : Nat) (host : Str) : Str := ' ' :: (natDigits qid ++ onText host)
+
+theorem killQuery_print (qid : Nat) (host : Str) :
+    (Statement.killQuery qid host).print = tx "KILL QUERY" ++ killQueryText qid host := by
+  have p1 : (Statement.killQuery qid host).print = tx "KILL QUERY " ++ natDigits qid ++ clauseOn host := rfl
+  have e1 : tx "KILL QUERY " = tx "KILL QUERY" ++ [' '] := by decide +kernel
+  rw [p1, e1, clauseOn_eq]
+  simp only [killQueryText, List.append_assoc, List.cons_append, List.nil_append]
+
+theorem numEnd_onText (host k : Str) (hk : NumEnd k) : NumEnd (onText host ++ k) := by
+  unfold onText
+  split
+  · exact NumEnd.blank _
+  · exact hk
+
+/-- **Print → parse, KILL QUERY n [ON host].** -/
+theorem killQuery_print_parse (fuel : Nat) (s : PState) (qid : Nat) (host k : Str) (hq : (qid : Int) ≤ maxUInt64)
+    (hex : Expressible host) (hk : IdentEnd host k) (hkn : NumEnd k) (hs : s.Before (killQueryText qid host ++ k)) :
+    ∃ sK, sK.Before k ∧
+      Returns (runHandler fuel .parseKillQueryStatement) s (.killQuery qid host) sK (host == []) [.ON] := by
+  have e : killQueryText qid host ++ k = ' ' :: (natDigits qid ++ (onText host ++ k)) := by
+    simp only [killQueryText, List.append_assoc, List.cons_append]
+  rw [e] at hs
+  obtain ⟨s1, h1, b1⟩ := parseUInt64_piece s [' '] (natDigits qid) _ qid hq Gap.blank hs
+    (scansAs_nat qid _ (numEnd_onText host k hkn))
+  obtain ⟨sK, hb, hr⟩ := parseOnDb_print s1 host k hex hk b1
+  refine ⟨sK, hb, ?_⟩
+  unfold Returns at hr ⊢
+  simp only [runHandler, parseKillQuery]
+  split
+  · next hp =>
+    rw [if_pos hp] at hr
+    intro lx s' h2 h3
+    rw [P.run_bind _ _ s qid s1 h1, P.run_bind _ _ s1 host s' (hr lx s' h2 h3)]; rfl
+  · next hp =>
+    rw [if_neg hp] at hr
+    rw [P.run_bind _ _ s qid s1 h1, P.run_bind _ _ s1 host sK hr]; rfl
+
+/-! ### DROP SHARD -/
+
+theorem dropShard_print (id : Nat) : (Statement.dropShard id).print = tx "DROP SHARD" ++ ' ' :: natDigits id := by
+  have p1 : (Statement.dropShard id).print = tx "DROP SHARD " ++ natDigits id := rfl
+  have e1 : tx "DROP SHARD " = tx "DROP SHARD" ++ [' '] := by decide +kernel
+  rw [p1, e1]
+  simp only [List.append_assoc, List.cons_append, List.nil_append]
+
+/-- **Print → parse, DROP SHARD n.** -/
+theorem dropShard_print_parse (fuel : Nat) (s : PState) (id : Nat) (k : Str) (hid : (id : Int) ≤ maxUInt64)
+    (hk : NumEnd k) (hs : s.Before (' ' :: natDigits id ++ k)) :
+    ∃ s', (runHandler fuel .parseDropShardStatement).run s = .ok (.dropShard id, s') ∧ s'.Before k := by
+  obtain ⟨s1, h1, b1⟩ := parseUInt64_piece s [' '] (natDigits id) k id hid Gap.blank hs (scansAs_nat id k hk)
+  refine ⟨s1, ?_, b1⟩
+  simp only [runHandler]
+  rw [P.run_bind _ _ s id s1 h1]; rfl
+
+/-! ### DROP SUBSCRIPTION -/
+
+/-- What DROP SUBSCRIPTION prints after its keywords: `<name> ON <db>.<rp>`. -/
+def dropSubscriptionText (name db rp : Str) : Str :=
+  ' ' :: (qi name ++ ' ' :: (Token.ON.str ++ ' ' :: (qi db ++ '.' :: qi rp)))
+
+theorem dropSubscription_print (name db rp : Str) :
+    (Statement.dropSubscription name db rp).print = tx "DROP SUBSCRIPTION" ++ dropSubscriptionText name db rp := by
+  have p1 : (Statement.dropSubscription name db rp).print =
+      tx "DROP SUBSCRIPTION " ++ qi name ++ tx " ON " ++ qi db ++ tx "." ++ qi rp := rfl
+  have e1 : tx "DROP SUBSCRIPTION " = tx "DROP SUBSCRIPTION" ++ [' '] := by decide +kernel
+  have e2 : tx "." = ['.'] := by decide +kernel
+  rw [p1, e1, e2, tx_on]
+  simp only [dropSubscriptionText, List.append_assoc, List.cons_append, List.nil_append]
+
+/-- **Print → parse, DROP SUBSCRIPTION name ON db.rp.** -/
+theorem dropSubscription_print_parse (fuel : Nat) (s : PState) (name db rp k : Str) (hex1 : Expressible name)
+    (hex2 : Expressible db) (hex3 : Expressible rp) (hk : IdentEnd rp k)
+    (hs : s.Before (dropSubscriptionText name db rp ++ k)) :
+    ∃ s', (runHandler fuel .parseDropSubscriptionStatement).run s = .ok (.dropSubscription name db rp, s') ∧
+      s'.Before k := by
+  have e : dropSubscriptionText name db rp ++ k =
+      ' ' :: (qi name ++ ' ' :: (Token.ON.str ++ ' ' :: (qi db ++ '.' :: (qi rp ++ k)))) := by
+    simp only [dropSubscriptionText, List.append_assoc, List.cons_append]
+  rw [e] at hs
+  obtain ⟨s1, h1, b1⟩ := parseIdent_piece s [' '] (qi name) _ name Gap.blank hs
+    (scansAs_ident name _ hex1 (.of_wordEnd (WordEnd.blank _)))
+  obtain ⟨s2, h2, b2⟩ := expectTok_piece s1 [' '] Token.ON.str _ .ON [] ["ON"] Gap.blank b1
+    (scansAs_kw .ON _ (by decide +kernel) (WordEnd.blank _))
+  obtain ⟨s3, h3, b3⟩ := parseIdent_piece s2 [' '] (qi db) _ db Gap.blank b2
+    (scansAs_ident db _ hex2 (.of_wordEnd (WordEnd.dot _)))
+  obtain ⟨dot, s4, h4, t4, _, b4⟩ := pscan_piece s3 ['.'] (qi rp ++ k) .DOT [] b3
+    (scansAs_dot _ (quoteIdent_head_not_digit rp k))
+  obtain ⟨s5, h5, b5⟩ := parseIdent_piece s4 [] (qi rp) k rp Gap.none b4 (scansAs_ident rp k hex3 hk)
+  refine ⟨s5, ?_, b5⟩
+  simp only [runHandler, parseDropSubscription]
+  rw [P.run_bind _ _ s name s1 h1, P.run_bind _ _ s1 () s2 h2, P.run_bind _ _ s2 db s3 h3,
+    P.run_bind _ _ s3 dot s4 h4]
+  simp only [t4, ne_eq, not_true_eq_false, if_false]
+  rw [P.run_bind _ _ s4 rp s5 h5]
+  rfl
 
 /-! ## passwords -/
 
